@@ -8,6 +8,7 @@ import EinoV.Model.GraphBuild
 import EinoV.Proofs.C01
 import EinoV.Proofs.C01Refine
 import EinoV.Proofs.C01Chain
+import EinoV.Proofs.C01ChainKeys
 import EinoV.Spec.Superstep
 import EinoV.Gen.FactsC01
 import EinoV.Expected.C01
@@ -153,6 +154,19 @@ open EinoV.Engine EinoV.Gen EinoV.Chain
 theorem chain_is_composition (c : Chain) (h : c.WF) (x : CVal) :
     (run cvalOps (compile FactsC01.stepSlack (lower c)) x).result = c.sem x :=
   Chain.chain_is_composition FactsC01.stepSlack c h x
+
+/-- **chain_keys_distinct.** The node keys chain.go generates never collide and are never
+    START / END: the third conjunct of `Chain.WF` follows from the Append* checks. -/
+theorem chain_keys_distinct (c : Chain) (h : stagesOK false c = true) :
+    (START :: (lowerKeys c ++ [END])).Nodup :=
+  Chain.lowerKeys_nodup c h
+
+/-- `chain_is_composition` with the purely structural hypotheses: a non-empty chain whose
+    parallel / branch stages have ≥ 2 members with distinct keys and never directly follow
+    another parallel / branch stage. -/
+theorem chain_is_composition_structural (c : Chain) (hne : c ≠ []) (h : stagesOK false c = true) (x : CVal) :
+    (run cvalOps (compile FactsC01.stepSlack (lower c)) x).result = c.sem x :=
+  chain_is_composition c (Chain.wf_of_stagesOK c hne h) x
 
 /-- **chain_never_hits_limit.** The default step limit of a compiled chain is at least its
     number of stages (one superstep per stage), whatever the slack found in the source. -/
